@@ -94,6 +94,15 @@ func H_C15_subscription() {
 			vassert(api.EventMask(rpl.Events) == m, "configured-mask")
 		}
 	}
+	// a later (re)configuration - e.g. after a reconnect - may ask for any implemented event again
+	<-s.cfgErrC
+	r.mask = want
+	rpl2, cerr2 := s.Configure(context.Background(), &api.ConfigureRequest{Config: "cfg", RuntimeName: "rt", RuntimeVersion: "1"})
+	vassert(cerr2 == nil && rpl2 != nil, "reconfiguration-with-implemented-events-rejected")
+	if rpl2 != nil {
+		vassert(api.EventMask(rpl2.Events) == want, "reconfigured-mask")
+	}
+	vassert(s.events == want, "implemented-set-changed-by-configuration")
 }
 
 var stateEvents = [...]api.Event{api.Event_RUN_POD_SANDBOX, api.Event_POST_UPDATE_POD_SANDBOX, api.Event_STOP_POD_SANDBOX,
@@ -220,6 +229,7 @@ type envRuntime struct {
 	failed []*api.ContainerUpdate
 	err    error
 	nilRpl bool
+	deadline bool
 }
 
 func (e *envRuntime) RegisterPlugin(context.Context, *api.RegisterPluginRequest) (*api.Empty, error) {
@@ -227,6 +237,7 @@ func (e *envRuntime) RegisterPlugin(context.Context, *api.RegisterPluginRequest)
 }
 func (e *envRuntime) UpdateContainers(ctx context.Context, req *api.UpdateContainersRequest) (*api.UpdateContainersResponse, error) {
 	e.calls++
+	_, e.deadline = ctx.Deadline()
 	e.got = req.Update
 	if e.nilRpl {
 		return nil, e.err
@@ -261,6 +272,9 @@ func H_C19_stub_side() {
 	f, e := s.UpdateContainers(upd)
 	cover("relayed")
 	vassert(rt.calls == 1, "runtime-not-called-exactly-once")
+	// the call waits for the runtime (which serialises it behind other requests): a plugin-side deadline could
+	// replace the callback's result by a timeout error although the callback ran
+	vassert(!rt.deadline, "ghost-update-call-bounded-by-a-deadline")
 	vassert(sameObject(rt.got, upd), "updates-changed")
 	vassert(e == rt.err, "error-changed")
 	if rt.nilRpl {
@@ -272,3 +286,40 @@ func H_C19_stub_side() {
 
 // verifPretty replaces EventMask.PrettyString, whose result only flows into log and error text.
 func verifPretty(m *api.EventMask) string { return "events" }
+
+// H_C09_stale_sync: a split synchronization interrupted by a lost connection must not leak its collected
+// chunks into the synchronization of the next session.
+//verif:property C09
+//verif:cut (*github.com/containerd/nri/pkg/api.EventMask).PrettyString => verifPretty
+//verif:replay-with-cuts
+//verif:expect-cover done
+func H_C09_stale_sync() {
+	s, r, _, err := newStubFor(0)
+	if err != nil {
+		return
+	}
+	ctx := context.Background()
+	p1, c1 := &api.PodSandbox{Id: nondetString()}, &api.Container{Id: nondetString()}
+	s.started = true
+	rpl, e := s.Synchronize(ctx, &api.SynchronizeRequest{Pods: []*api.PodSandbox{p1}, Containers: []*api.Container{c1}, More: true})
+	vassert(e == nil && rpl != nil && rpl.More, "chunk-not-acknowledged")
+	// the connection is lost before the last chunk: the stub resets itself (what connClosed does)
+	s.Lock()
+	s.close()
+	s.Unlock()
+	// next session: a complete synchronization in one message
+	p2, c2 := &api.PodSandbox{Id: nondetString()}, &api.Container{Id: nondetString()}
+	s.started = true
+	_, e = s.Synchronize(ctx, &api.SynchronizeRequest{Pods: []*api.PodSandbox{p2}, Containers: []*api.Container{c2}})
+	vassert(e == nil, "sync-error")
+	n := 0
+	for _, c := range r.calls {
+		if c.method == "Synchronize" {
+			n++
+			vassert(len(c.pods) == 1 && c.pods[0] == p2, "stale-pods-from-the-aborted-synchronization")
+			vassert(len(c.ctrs) == 1 && c.ctrs[0] == c2, "stale-containers-from-the-aborted-synchronization")
+		}
+	}
+	vassert(n == 1, "handler-not-invoked-exactly-once")
+	cover("done")
+}
